@@ -2,44 +2,173 @@
 C04 — task and join-handle lifecycle (compio-executor).
 Property theorems only; helper lemmas live in Compio/Lemmas/Executor*.lean and Lemmas/RemoteJoin.lean.
 
-Part 1: the home thread. All statements are about the functions the driver executes
-(`Compio.Executor.applyR` / `apply` / `run`) and hold for EVERY program `ops : List Op`.
+Part 1: the executor's home thread, with handles and wakers used there or — sequentially — on another
+thread (`Remote::schedule` + sync queue + `drain_sync`, `Remote::poll`). All statements are about the
+functions the driver executes (`Compio.Executor.applyR` / `apply` / `run`) and hold for EVERY program
+`ops : List Op` and every `sync_queue_size = q`.
 Part 2: the join handle polled / dropped on another thread (labelled transition system
 Compio/Model/RemoteJoin.lean), for every interleaving.
 -/
 import Compio.Lemmas.ExecutorSteps
 import Compio.Lemmas.RemoteJoin
+import Compio.Gen.TaskOrder
 
 namespace Compio.Props.C04
 open Compio.TaskWord Compio.Gen Compio.Executor
 
+/-! ## 0. The statement order of the source functions the model follows
+
+`Gen/TaskOrder.lean` is regenerated from /repo on every run: for each function the calls on a whitelist,
+in evaluation order, with their innermost guard. The theorems pin the order the hand model executes;
+reordering, dropping or adding one of these calls in the source makes them fail. -/
+
+/-- `Task::cancel`: `schedule()` FIRST, then `set_cancelled()` (the model: `scheduleLocal` / `remoteSchedule` before `cancelWord`). With the two swapped a handle dropped on another thread never makes the task runnable: `Remote::schedule` returns early on `is_cancelled` (seeded defect C04-c). -/
+theorem source_order_taskCancel : TaskOrder.taskCancel = [
+  ("schedule", ""),
+  ("set_cancelled", ""),
+  ("has_result", ""),
+  ("set_has_result", "if drop_result&&state.has_result()"),
+  ("drop_future", "if drop_result&&state.has_result()")
+] := by decide
+
+/-- `Task::run`: `unschedule()` unconditionally FIRST (the model: `runTask` clears SCHEDULED before anything else), early return when cancelled, the poll, and only on Ready `finish_running` and the wake of the join waker; nothing touches the word after a Pending poll (seeded defect C04-a cleared SCHEDULED there). -/
+theorem source_order_taskRun : TaskOrder.taskRun = [
+  ("unschedule", ""),
+  ("is_cancelled", ""),
+  ("return", "if state.is_cancelled()"),
+  ("run_future", ""),
+  ("is_ready", ""),
+  ("finish_running", "if res.is_ready()"),
+  ("has_waker", "if res.is_ready()"),
+  ("is_setting_waker", "if res.is_ready()"),
+  ("wake_by_ref", "if state.has_waker()&&!state.is_setting_waker()")
+] := by decide
+
+/-- `Task::drop` (called by the executor): `set_dropped`, `shared := null`, drop the future unless completed, drop the join waker unless a remote handle is inside its SETTING_WAKER section (the model: `taskDropByExecutor`) -/
+theorem source_order_taskDrop : TaskOrder.taskDrop = [
+  ("set_dropped", ""),
+  ("store", ""),
+  ("return", "if ::std::thread::panicking()"),
+  ("is_completed", ""),
+  ("drop_future", "if !state.is_completed()"),
+  ("has_waker", ""),
+  ("is_setting_waker", ""),
+  ("drop_in_place", "if state.has_waker()&&!state.is_setting_waker()")
+] := by decide
+
+/-- `impl Drop for Task`: `dec`; the last holder drops result and waker if flagged, then deallocates (the model: `dropRef`) -/
+theorem source_order_taskRelease : TaskOrder.taskRelease = [
+  ("dec", ""),
+  ("count", ""),
+  ("return", "if state.count()>1"),
+  ("dealloc", "if ::std::thread::panicking()"),
+  ("return", "if ::std::thread::panicking()"),
+  ("has_result", ""),
+  ("drop_future", "if state.has_result()"),
+  ("has_waker", ""),
+  ("drop_in_place", "if state.has_waker()"),
+  ("dealloc", "")
+] := by decide
+
+/-- `Remote::schedule`: `start_scheduling`, early return on scheduled / completed / cancelled / null `shared`, reserve (`pending.fetch_add`) BEFORE the push loop, driver waker when the queue is full or after the push, `finish_scheduling` on every path (the model: `remoteSchedTask`, `remoteSchedule`, `remoteWakeB`) -/
+theorem source_order_remoteSchedule : TaskOrder.remoteSchedule = [
+  ("start_scheduling", ""),
+  ("is_scheduled", ""),
+  ("is_completed", ""),
+  ("is_cancelled", ""),
+  ("finish_scheduling", "if state.is_scheduled()||state.is_completed()||state.is_cancelled()"),
+  ("return", "if state.is_scheduled()||state.is_completed()||state.is_cancelled()"),
+  ("load", ""),
+  ("finish_scheduling", "let-else"),
+  ("return", "let-else"),
+  ("fetch_add", ""),
+  ("push", "while-cond shared.sync.push(self.header().id).is_err()"),
+  ("wake_by_ref", "if !notified&&letSome(refwaker)=shared.waker"),
+  ("load", "else(!notified&&letSome(refwaker)=shared.waker)"),
+  ("is_cancelled", "else(!notified&&letSome(refwaker)=shared.waker)"),
+  ("fetch_sub", "if self.header().state.load::<Strong>().is_cancelled()"),
+  ("finish_scheduling", "if self.header().state.load::<Strong>().is_cancelled()"),
+  ("return", "if self.header().state.load::<Strong>().is_cancelled()"),
+  ("yield_now", "else(self.header().state.load::<Strong>().is_cancelled())"),
+  ("wake_by_ref", "if letSome(refwaker)=shared.waker"),
+  ("finish_scheduling", "")
+] := by decide
+
+/-- `Local::schedule`: null check, `drain_sync`, then `make_hot` (the model: `scheduleLocal`) -/
+theorem source_order_localSchedule : TaskOrder.localSchedule = [
+  ("load", ""),
+  ("return", "let-else"),
+  ("drain_sync", ""),
+  ("make_hot", ""),
+  ("wake_by_ref", "if letSome(refwaker)=shared.waker")
+] := by decide
+
+/-- `Shared::drain_sync`: fast path on `pending == 0`, pop and `make_hot` everything, then SUBTRACT the number drained (the model: `drainSync`; seeded defect C04-b stored 0 instead, wiping the reservation of a blocked pusher) -/
+theorem source_order_drainSync : TaskOrder.drainSync = [
+  ("load", ""),
+  ("return", "if self.pending.load(Ordering::Acquire)==0"),
+  ("pop", "while-cond letSome(id)=self.sync.pop()"),
+  ("make_hot", "while letSome(id)=self.sync.pop()"),
+  ("fetch_sub", "if drained!=0")
+] := by decide
+
+/-- `Executor::tick`: `drain_sync` first, then for each of at most `max_interval` hot ids `make_cold`, `take`, `run`, and `drop` + `remove` on Ready or `reset` otherwise; `has_hot` (the model: `tickFrom`, `tickLoop`, `tickStep`, `runOne`) -/
+theorem source_order_tick : TaskOrder.tick = [
+  ("drain_sync", ""),
+  ("iter_hot", ""),
+  ("take", ""),
+  ("make_cold", "for queue.iter_hot().take(self.config.max_intervalas_)"),
+  ("take", "for queue.iter_hot().take(self.config.max_intervalas_)"),
+  ("run", "for queue.iter_hot().take(self.config.max_intervalas_)"),
+  ("drop", "if res.is_ready()"),
+  ("remove", "if res.is_ready()"),
+  ("reset", "else(res.is_ready())"),
+  ("has_hot", "")
+] := by decide
+
+/-- `Executor::clear`: empty the sync queue, then drop every task of the map (the model: `clearAll`) -/
+theorem source_order_clear : TaskOrder.clear = [
+  ("pop", "while-cond self.shared().sync.pop().is_some()"),
+  ("clear", "")
+] := by decide
+
+/-- in particular: the cross-thread wake-up / cancellation protocol relies on these three orders -/
+theorem source_order_protocol :
+    (TaskOrder.taskCancel.map (·.1)).take 2 = ["schedule", "set_cancelled"] ∧
+    (TaskOrder.taskRun.map (·.1)).head? = some "unschedule" ∧
+    (TaskOrder.taskRun.map (·.1)).getLast? = some "wake_by_ref" ∧
+    TaskOrder.drainSync.getLast? = some ("fetch_sub", "if drained!=0") ∧
+    ¬ ("store" ∈ TaskOrder.drainSync.map (·.1)) := by decide
+
 /-! ## 1. The lifecycle invariant, for every program -/
 
-/-- the inductive invariant holds after every sequence of operations -/
-theorem lifecycle_invariant (ops : List Op) : Inv (run ops) := run_inv ops
+/-- the inductive invariant holds after every sequence of operations (and no `Remote::schedule` is
+left blocked) -/
+theorem lifecycle_invariant (q : Nat) (ops : List Op) : Inv (run q ops) ∧ (run q ops).inflight = none :=
+  ⟨run_inv q ops, (run_invB q ops).idle⟩
 
 /-- every operation preserves it (so it also holds between the operations of a program) -/
-theorem lifecycle_invariant_step (e : Exec) (h : Inv e) (op : Op) : Inv (apply e op) := apply_inv h op
+theorem lifecycle_invariant_step (e : Exec) (h : InvB e) (op : Op) : InvB (apply e op) := apply_invB h op
 
 section unpacked
-variable (ops : List Op) (id : Nat) (t : TaskSt) (hg : (run ops).get? id = some t)
+variable (q : Nat) (ops : List Op) (id : Nat) (t : TaskSt) (hg : (run q ops).get? id = some t)
 include hg
 
 /-- (R) reference count = number of holders: the executor (while the task is queued), the handle, the wakers -/
 theorem refcount_eq_holders (hd : t.deallocs = 0) :
-    t.word.count = (if inMap (run ops) id then 1 else 0) + (if t.handle then 1 else 0) + t.wakers :=
-  ((run_inv ops).t id t hg).rc hd
+    t.word.count = (if inMap (run q ops) id then 1 else 0) + (if t.handle then 1 else 0) + t.wakers :=
+  ((run_inv q ops).t id t hg).rc hd
 
 /-- (D) the allocation is freed at most once, exactly when the last holder is gone, and nothing touches it
 afterwards -/
 theorem dealloc_exactly_once :
     t.deallocs ≤ 1 ∧
-    (t.deallocs = 1 ↔ (if inMap (run ops) id then 1 else 0) + (if t.handle then 1 else 0) + t.wakers = 0) ∧
+    (t.deallocs = 1 ↔ (if inMap (run q ops) id then 1 else 0) + (if t.handle then 1 else 0) + t.wakers = 0) ∧
     t.uaf = 0 := by
-  have h := (run_inv ops).t id t hg
+  have h := (run_inv q ops).t id t hg
   have hdl := h.dl
   unfold holders at hdl
-  by_cases hz : (if inMap (run ops) id then 1 else 0) + (if t.handle then 1 else 0) + t.wakers = 0
+  by_cases hz : (if inMap (run q ops) id then 1 else 0) + (if t.handle then 1 else 0) + t.wakers = 0
   · rw [if_pos hz] at hdl
     exact ⟨by omega, by simp [hdl, hz], h.uaf⟩
   · rw [if_neg hz] at hdl
@@ -50,17 +179,17 @@ completed, storage = future, `shared` valid); once the executor let go of the ta
 cancellation, executor drop) it has been dropped exactly once -/
 theorem future_dropped_exactly_once :
     t.futDrops ≤ 1 ∧
-    (inMap (run ops) id = true →
+    (inMap (run q ops) id = true →
       t.storage = .future ∧ t.futDrops = 0 ∧ t.word.completed = false ∧ t.shared = true) ∧
-    (inMap (run ops) id = false → t.futDrops = 1 ∧ t.shared = false) := by
-  have h := (run_inv ops).t id t hg
+    (inMap (run q ops) id = false → t.futDrops = 1 ∧ t.shared = false) := by
+  have h := (run_inv q ops).t id t hg
   refine ⟨?_, fun hi => ⟨h.inq_st hi, h.inq_fd hi, h.inq_c hi, h.inq_sh hi⟩, fun hi => ⟨h.outq_fd hi, h.outq_sh hi⟩⟩
-  cases hi : inMap (run ops) id
+  cases hi : inMap (run q ops) id
   · rw [h.outq_fd hi]; omega
   · rw [h.inq_fd hi]; omega
 
 /-- (P) the future is never polled after it completed (and never once cancelled: `cancelled_never_polled`) -/
-theorem never_polled_after_completion : t.badPolls = 0 := ((run_inv ops).t id t hg).bp
+theorem never_polled_after_completion : t.badPolls = 0 := ((run_inv q ops).t id t hg).bp
 
 /-- (S) HAS_RESULT ⇔ the storage holds a result; the output / panic payload is taken or dropped at most
 once; once the allocation is freed: exactly once iff the task completed -/
@@ -68,7 +197,7 @@ theorem result_exactly_once :
     (t.deallocs = 0 → (t.word.hasResult = true ↔ (t.storage = .resultOk ∨ t.storage = .resultPanic))) ∧
     t.resTaken + t.resDrops ≤ 1 ∧
     (t.deallocs = 1 → (t.resTaken + t.resDrops = 1 ↔ t.word.completed = true)) := by
-  have h := (run_inv ops).t id t hg
+  have h := (run_inv q ops).t id t hg
   refine ⟨?_, ?_, ?_⟩
   · intro hd
     rw [h.res hd]
@@ -84,78 +213,82 @@ theorem join_waker_accounting :
     (t.word.hasWaker = true ↔ t.slot.isSome = true) ∧
     t.slotSets = t.slotDrops + (if t.slot.isSome then 1 else 0) ∧
     (t.deallocs = 1 → t.slot = none ∧ t.slotSets = t.slotDrops) := by
-  have h := (run_inv ops).t id t hg
+  have h := (run_inv q ops).t id t hg
   refine ⟨by rw [h.wk], h.sl, ?_⟩
   intro hd
-  have hin : inMap (run ops) id = false := by
-    cases hi : inMap (run ops) id
+  have hin : inMap (run q ops) id = false := by
+    cases hi : inMap (run q ops) id
     · rfl
     · have := h.dl; rw [hd, hi] at this; simp [holders] at this
   have hs := h.outq_slot hin
   exact ⟨hs, by rw [h.sl, hs]; simp⟩
 
 /-- the home thread never leaves the SETTING_WAKER section open -/
-theorem not_setting_waker : t.word.notSettingWaker = true := ((run_inv ops).t id t hg).nsw
+theorem not_setting_waker : t.word.notSettingWaker = true := ((run_inv q ops).t id t hg).nsw
 
 end unpacked
 
 /-- (Q) the queues are duplicate-free, disjoint, and contain only valid task ids -/
-theorem queue_well_formed (ops : List Op) :
-    (run ops).hot.Nodup ∧ (run ops).cold.Nodup ∧ (∀ x, x ∈ (run ops).hot → x ∉ (run ops).cold) ∧
-    (∀ x, x ∈ (run ops).hot ∨ x ∈ (run ops).cold → x < (run ops).tasks.length) := by
-  have q := (run_inv ops).q
+theorem queue_well_formed (q : Nat) (ops : List Op) :
+    (run q ops).hot.Nodup ∧ (run q ops).cold.Nodup ∧ (∀ x, x ∈ (run q ops).hot → x ∉ (run q ops).cold) ∧
+    (∀ x, x ∈ (run q ops).hot ∨ x ∈ (run q ops).cold → x < (run q ops).tasks.length) := by
+  have q := (run_inv q ops).q
   exact ⟨q.hnd, q.cnd, fun x h1 h2 => q.disj x h1 h2, fun x h => h.elim (q.hval x) (q.cval x)⟩
 
 /-- (D) no use after free, in its strongest form: once the allocation of a task was freed, no
 operation whatsoever changes (or reads through a live holder) that task any more -/
-theorem nothing_touches_freed_task (ops : List Op) (id : Nat) (t : TaskSt)
-    (hg : (run ops).get? id = some t) (hd : t.deallocs = 1) (op : Op) :
-    (apply (run ops) op).get? id = some t := frozen_after_free (run_inv ops) hg hd op
+theorem nothing_touches_freed_task (q : Nat) (ops : List Op) (id : Nat) (t : TaskSt)
+    (hg : (run q ops).get? id = some t) (hd : t.deallocs = 1) (op : Op) :
+    (apply (run q ops) op).get? id = some t := frozen_after_free (run_invB q ops) hg hd op
 
 /-- tasks are never forgotten, and each evolves only by the primitive per-task steps of the model -/
-theorem task_evolves_by_steps (ops more : List Op) (id : Nat) (t : TaskSt) (hg : (run ops).get? id = some t) :
-    ∃ t', (run (ops ++ more)).get? id = some t' ∧ TaskSteps t t' := by
-  have := foldl_steps more (run_inv ops) hg
+theorem task_evolves_by_steps (q : Nat) (ops more : List Op) (id : Nat) (t : TaskSt)
+    (hg : (run q ops).get? id = some t) :
+    ∃ t', (run q (ops ++ more)).get? id = some t' ∧ TaskSteps true t t' := by
+  have := foldl_steps more (run_invB q ops) hg
   simpa [run, List.foldl_append] using this
 
-/-! ## 2. Polls happen only inside `tick`; the handle API never hits its `unreachable!` -/
+/-- the queue clause for cross-thread wake-ups and cancellations: between operations, a task that is
+still queued and has its SCHEDULED bit set, or is cancelled, is in the hot queue or in the sync queue —
+the next tick reaches it -/
+theorem scheduled_or_cancelled_is_reachable (q : Nat) (ops : List Op) (id : Nat) (t : TaskSt)
+    (hg : (run q ops).get? id = some t) (hq : inMap (run q ops) id = true)
+    (hs : t.word.scheduled = true ∨ t.word.notCancelled = false) :
+    id ∈ (run q ops).hot ∨ id ∈ (run q ops).sync := by
+  have h := run_invB q ops
+  rcases (inMap_iff _ _).mp hq with h1 | h1
+  · exact Or.inl h1
+  · rcases hs with hs | hs
+    · rcases h.inv.s id t hg hs h1 with h2 | h2
+      · exact Or.inr h2
+      · rw [h.idle] at h2; cases h2
+    · rcases h.inv.c id t hg hs h1 with h2 | h2
+      · exact Or.inr h2
+      · rw [h.idle] at h2; cases h2
 
-/-- (P) no operation other than `tick` polls any future -/
-theorem polls_only_in_tick (e : Exec) (h : Inv e) (op : Op) (hop : ∀ n, op ≠ .tick n)
+/-- `Shared::pending` never under-counts the sync queue: the fast path of `drain_sync` skips nothing -/
+theorem pending_bounds_sync (q : Nat) (ops : List Op) : (run q ops).sync.length ≤ (run q ops).pending := by
+  have := (run_inv q ops).p
+  omega
+
+/-! ## 2. Polls happen only inside ticks; the handle API never hits its `unreachable!` -/
+
+/-- (P) no operation other than a tick (`tick`, or the tick the executor runs while a remote waker is
+blocked: `rwakeb`) polls any future -/
+theorem polls_only_in_tick (e : Exec) (h : InvB e) (op : Op) (hop : op.ticks = false)
     (id : Nat) (t : TaskSt) (hg : e.get? id = some t) :
     ∃ t', (apply e op).get? id = some t' ∧ t'.polls = t.polls := by
-  rcases apply_cases e op with h0 | ⟨id', t1, t', hg', _, hp, h1 | h1⟩ | ⟨ha, ⟨sc, rfl⟩ | ⟨n, rfl⟩ | rfl⟩
-  · exact ⟨t, by rw [h0]; exact hg, rfl⟩
-  · by_cases hx : id = id'
-    · subst hx; rw [hg] at hg'; cases hg'
-      exact ⟨t', by rw [h1]; exact get?_setTask_self _ hg, hp⟩
-    · exact ⟨t, by rw [h1, get?_setTask_ne _ _ hx]; exact hg, rfl⟩
-  · by_cases hx : id = id'
-    · subst hx; rw [hg] at hg'; cases hg'
-      exact ⟨t', by rw [h1]; exact get?_setTask_self _ (by rw [scheduleLocal_get?]; exact hg), hp⟩
-    · exact ⟨t, by rw [h1, get?_setTask_ne _ _ hx, scheduleLocal_get?]; exact hg, rfl⟩
-  · refine ⟨t, ?_, rfl⟩
-    simp [apply, applyR, ha, spawn, Exec.get?, List.getElem?_append_left (get?_lt hg)]
-    exact hg
-  · exact absurd rfl (hop n)
-  · have hnd : (e.hot ++ e.cold).Nodup := by
-      rw [List.nodup_append]
-      refine ⟨h.q.hnd, h.q.cnd, ?_⟩
-      intro a ha b hb hab; subst hab; exact h.q.disj a ha hb
-    have := (foldl_clearTask (e.hot ++ e.cold) e hnd).1 id
-    simp only [apply, applyR, ha]
-    by_cases hm : id ∈ e.hot ++ e.cold
-    · rw [if_pos hm, hg] at this
-      exact ⟨clearedTask t, this, by simp [clearedTask, dropRef_polls, taskDropByExecutor_polls]⟩
-    · rw [if_neg hm, hg] at this
-      exact ⟨t, this, rfl⟩
+  obtain ⟨t', hg', hs⟩ := apply_steps h op hg
+  rw [hop] at hs
+  exact ⟨t', hg', taskSteps_norun_polls hs⟩
 
 /-- (P) `tick` polls exactly what its log says: the poll counter of every task grows by the number of
 times its id occurs in the log returned by `tick` -/
 theorem tick_polls_exactly_logged (e : Exec) (h : Inv e) (n : Nat) (id : Nat) (t : TaskSt)
     (hg : e.get? id = some t) :
-    ∃ t', (tick e n).1.get? id = some t' ∧ t'.polls = t.polls + (tick e n).2.1.count id :=
-  tickLoop_polls n e h id t hg
+    ∃ t', (tick e n).1.get? id = some t' ∧ t'.polls = t.polls + (tick e n).2.1.count id := by
+  have sf := tickStart_facts h
+  exact tickLoop_polls n (tickStart e) sf.inv id t (by rw [sf.get]; exact hg)
 
 /-- `unreachable!("Task is completed but has no result")` in `Local::poll` is never reached -/
 theorem local_poll_never_unreachable (e : Exec) (h : Inv e) (id w : Nat) (t : TaskSt)
@@ -163,13 +296,31 @@ theorem local_poll_never_unreachable (e : Exec) (h : Inv e) (id w : Nat) (t : Ta
   rw [handlePoll_live w hg hh]
   exact pollTask_valid _ t w (h.t id t hg) hh
 
-/-- `JoinHandle::cancel(self).await` on the home thread completes with its first poll -/
-theorem cancel_never_pending (e : Exec) (id : Nat) (t : TaskSt) (hg : e.get? id = some t)
+/-- `Remote::poll` never spins on a completed task without result; run without interference it does to
+the task and returns exactly what `Local::poll` does -/
+theorem remote_poll_never_stuck (e : Exec) (h : Inv e) (id w : Nat) (t : TaskSt)
+    (hg : e.get? id = some t) (hh : t.handle = true) :
+    (remoteHandlePoll e id w).2 ≠ .invalid ∧ remoteHandlePoll e id w = handlePoll e id w := by
+  have hv := pollTask_valid _ t w (h.t id t hg) hh
+  have he := remotePollTask_eq_pollTask t w (h.t id t hg).nsw hv
+  constructor
+  · simp only [remoteHandlePoll, hg, hh]; simpa [he] using hv
+  · simp [remoteHandlePoll, handlePoll, hg, hh, he]
+
+/-- `JoinHandle::cancel(self).await` completes with its first poll, on the home thread ... -/
+theorem cancel_never_pending (e : Exec) (h : Inv e) (id : Nat) (t : TaskSt) (hg : e.get? id = some t)
     (hh : t.handle = true) :
     (applyR e (.hcancel id)).2 = .cancel .ok ∨ (applyR e (.hcancel id)).2 = .cancel .panicked ∨
     (applyR e (.hcancel id)).2 = .cancel .cancelled := by
-  rw [hcancel_live hg hh]
+  rw [hcancel_live h hg hh]
   rcases pollTask_cancelled (cancelWord t false) noopWaker (cancelWord_nc t false) with h | h | h <;> simp [h]
+
+/-- ... and on another thread -/
+theorem remote_cancel_never_pending (e : Exec) (id : Nat) (t : TaskSt) (hg : e.get? id = some t) :
+    (remoteHandleCancel e id).2 = .ok ∨ (remoteHandleCancel e id).2 = .panicked ∨
+    (remoteHandleCancel e id).2 = .cancelled := by
+  simp only [remoteHandleCancel, remoteSchedule_get?_self hg]
+  exact remotePollTask_cancelled _ noopWaker (cancelWord_nc _ false)
 
 /-! ## 3. Dropping the handle cancels; detaching lets the task run; panics are contained; teardown -/
 
@@ -180,18 +331,47 @@ theorem hdrop_cancels_and_schedules (e : Exec) (h : Inv e) (id : Nat) (t : TaskS
     id ∈ (handleDrop e id).1.hot ∧ cancelledIn (handleDrop e id).1 id := by
   rw [handleDrop_live hg hh]
   have hg' := get?_setTask_self (dropRef { cancelWord t true with handle := false })
-    (show (scheduleLocal e id).get? id = some t by rw [scheduleLocal_get?]; exact hg)
+    (show (scheduleLocal e id).get? id = some t by rw [scheduleLocal_get? h]; exact hg)
   refine ⟨?_, _, hg', by rw [dropRef_nc]; exact cancelWord_nc t true⟩
-  have hm := (scheduleLocal_mem h.q id).mpr ((inMap_iff e id).mp hq)
+  have hm := (scheduleLocal_mem h id id).mpr ((inMap_iff e id).mp hq)
   rcases hm with hm | hm
   · exact hm
   · exact absurd hm (fun hc => scheduleLocal_not_cold h hg hc)
 
+/-- the same when the handle is dropped on ANOTHER thread: `Remote::schedule` runs BEFORE `set_cancelled`,
+so the id is pushed to the sync queue (or the task was already hot / scheduled): the task is cancelled and
+the next tick reaches it -/
+theorem remote_hdrop_cancels_and_schedules (e : Exec) (h : InvB e) (id : Nat) (t : TaskSt)
+    (hg : e.get? id = some t) (hh : t.handle = true) (hq : inMap e id = true) :
+    cancelledIn (remoteHandleDrop e id) id ∧
+    (id ∈ (remoteHandleDrop e id).hot ∨ id ∈ (remoteHandleDrop e id).sync) := by
+  have hh' : hasHandle e id = true := (hasHandle_iff e id).mpr ⟨t, hg, hh⟩
+  have hinv := remoteHandleDrop_inv h.inv id hh'
+  have hfl : (remoteHandleDrop e id).inflight = none := by
+    simp only [remoteHandleDrop, remoteSchedule_get?_self hg]
+    show (remoteSchedule e id).inflight = none
+    rw [remoteSchedule_inflight]; exact h.idle
+  have hget : ∃ t', (remoteHandleDrop e id).get? id = some t' ∧ t'.word.notCancelled = false := by
+    simp only [remoteHandleDrop, remoteSchedule_get?_self hg]
+    exact ⟨_, get?_setTask_self _ (remoteSchedule_get?_self hg), by rw [dropRef_nc]; exact cancelWord_nc _ true⟩
+  obtain ⟨t', hg', hn⟩ := hget
+  refine ⟨⟨t', hg', hn⟩, ?_⟩
+  have hq' : id ∈ (remoteHandleDrop e id).hot ∨ id ∈ (remoteHandleDrop e id).cold := by
+    simp only [remoteHandleDrop, remoteSchedule_get?_self hg]
+    show id ∈ (remoteSchedule e id).hot ∨ id ∈ (remoteSchedule e id).cold
+    rw [(remoteSchedule_fields e id).1, (remoteSchedule_fields e id).2.1]
+    exact (inMap_iff e id).mp hq
+  rcases hq' with h1 | h1
+  · exact Or.inl h1
+  · rcases hinv.c id t' hg' hn h1 with h2 | h2
+    · exact Or.inr h2
+    · rw [hfl] at h2; cases h2
+
 /-- once cancelled, a task is never polled again and stays cancelled, whatever the program does next -/
-theorem cancelled_never_polled_again (ops more : List Op) (id : Nat) (t : TaskSt)
-    (hg : (run ops).get? id = some t) (hc : t.word.notCancelled = false) :
-    ∃ t', (run (ops ++ more)).get? id = some t' ∧ t'.polls = t.polls ∧ t'.word.notCancelled = false := by
-  obtain ⟨t', hg', hs⟩ := foldl_steps more (run_inv ops) hg
+theorem cancelled_never_polled_again (q : Nat) (ops more : List Op) (id : Nat) (t : TaskSt)
+    (hg : (run q ops).get? id = some t) (hc : t.word.notCancelled = false) :
+    ∃ t', (run q (ops ++ more)).get? id = some t' ∧ t'.polls = t.polls ∧ t'.word.notCancelled = false := by
+  obtain ⟨t', hg', hs⟩ := foldl_steps more (run_invB q ops) hg
   refine ⟨t', by simpa [run, List.foldl_append] using hg', (taskSteps_mono hs).cpolls hc, ?_⟩
   cases hn : t'.word.notCancelled
   · rfl
@@ -202,10 +382,13 @@ theorem cancelled_dropped_when_reached (e : Exec) (h : Inv e) (n p id : Nat) (hx
     (hp : p < n) (hc : cancelledIn e id) :
     inMap (tick e n).1 id = false ∧ id ∉ (tick e n).2.1 ∧
     ∃ t', (tick e n).1.get? id = some t' ∧ t'.futDrops = 1 := by
-  have hgone : inMap (tick e n).1 id = false := (tickLoop_visit n e h p id hx hp).1 hc
-  obtain ⟨t, hg, hnc⟩ := hc
-  obtain ⟨t', hg', hpolls⟩ := tickLoop_polls n e h id t hg
-  obtain ⟨t'', hg'', hst⟩ := tickLoop_steps n e h id t hg
+  have sf := tickStart_facts h
+  have hc0 : cancelledIn (tickStart e) id := (liveIn_congr sf.get id).2.mpr hc
+  have hgone : inMap (tick e n).1 id = false :=
+    (tickLoop_visit n _ sf.inv p id (tickStart_hot_get h hx) hp).1 hc0
+  obtain ⟨t, hg, hnc⟩ := hc0
+  obtain ⟨t', hg', hpolls⟩ := tickLoop_polls n _ sf.inv id t hg
+  obtain ⟨t'', hg'', hst⟩ := tickLoop_steps n _ sf.inv id t hg
   rw [hg'] at hg''; cases hg''
   have hcp := (taskSteps_mono hst).cpolls hnc
   refine ⟨hgone, ?_, t', hg', ?_⟩
@@ -222,6 +405,23 @@ theorem cancelled_dropped_within (e : Exec) (h : Inv e) (n : Nat) (hn : 0 < n) (
     (hx : e.hot[p]? = some id) (hc : cancelledIn e id) (hp : p < k * n) :
     inMap (tickN e n k).1 id = false := tickN_drops_cancelled h n hn k p id hx hc hp
 
+/-- dropping the handle cancels the task WHEREVER the handle was dropped or cancelled (home thread or
+another thread): a cancelled task is reaped — future dropped unpolled, task out of the queue — within `k`
+ticks as soon as `k * max_interval ≥ |hot| + |sync|` -/
+theorem cancelled_reaped_within (q : Nat) (ops : List Op) (n : Nat) (hn : 0 < n) (k id : Nat)
+    (hc : cancelledIn (run q ops) id)
+    (hk : (run q ops).hot.length + (run q ops).sync.length ≤ k * n) :
+    inMap (tickN (run q ops) n k).1 id = false ∧
+    ∃ t', (tickN (run q ops) n k).1.get? id = some t' ∧ t'.futDrops = 1 := by
+  have hb := run_invB q ops
+  have hgone := tickN_reaps_cancelled hb n hn k hc hk
+  obtain ⟨t, hg, _⟩ := hc
+  obtain ⟨t', hg', _⟩ := tickN_steps n k hb.inv hg
+  refine ⟨hgone, t', hg', ?_⟩
+  have := (tickN_invB hb n k).inv.t id t' hg'
+  rw [hgone] at this
+  exact this.outq_fd rfl
+
 /-- `detach` only gives up the handle's reference: the task stays where it is in the queue, keeps its
 script and is not cancelled by it -/
 theorem detach_keeps_running (e : Exec) (id : Nat) (t : TaskSt) (hg : e.get? id = some t)
@@ -237,12 +437,12 @@ theorem detach_keeps_running (e : Exec) (id : Nat) (t : TaskSt) (hg : e.get? id 
 
 /-- after `detach` nobody takes the output: when the task has completed and its allocation is freed,
 the output (or panic payload) has been dropped exactly once -/
-theorem detached_output_dropped_once (ops more : List Op) (id : Nat) (t t' : TaskSt)
-    (hg : (run ops).get? id = some t) (hh : t.handle = true)
-    (hg' : (run (ops ++ [.hdetach id] ++ more)).get? id = some t') :
+theorem detached_output_dropped_once (q : Nat) (ops more : List Op) (id : Nat) (t t' : TaskSt)
+    (hg : (run q ops).get? id = some t) (hh : t.handle = true)
+    (hg' : (run q (ops ++ [.hdetach id] ++ more)).get? id = some t') :
     t'.handle = false ∧ t'.resTaken = 0 ∧
     (t'.deallocs = 1 → t'.word.completed = true → t'.resDrops = 1) := by
-  have hinv := run_inv ops
+  have hinv := run_inv q ops
   have ht := hinv.t id t hg
   -- a live handle has not taken anything yet
   have hrt : t.resTaken = 0 := by
@@ -253,12 +453,12 @@ theorem detached_output_dropped_once (ops more : List Op) (id : Nat) (t t' : Tas
     · simp [hcp] at hc; omega
     · have := ht.hd hh hcp
       simp [hcp, this, hd] at hc; omega
-  have h1 : (run (ops ++ [.hdetach id])).get? id = some (dropRef { t with handle := false }) := by
+  have h1 : (run q (ops ++ [.hdetach id])).get? id = some (dropRef { t with handle := false }) := by
     rw [run_append]
     simp only [apply, applyR, handleDetach_live hg hh]
     exact get?_setTask_self _ hg
-  obtain ⟨t2, hg2, hs⟩ := foldl_steps more (run_inv (ops ++ [.hdetach id])) h1
-  have hg2' : (run (ops ++ [.hdetach id] ++ more)).get? id = some t2 := by
+  obtain ⟨t2, hg2, hs⟩ := foldl_steps more (run_invB q (ops ++ [.hdetach id])) h1
+  have hg2' : (run q (ops ++ [.hdetach id] ++ more)).get? id = some t2 := by
     simpa [run, List.foldl_append] using hg2
   rw [hg'] at hg2'; cases hg2'
   have hd1 := (dropRef_mono { t with handle := false }).hdl rfl
@@ -266,12 +466,12 @@ theorem detached_output_dropped_once (ops more : List Op) (id : Nat) (t t' : Tas
   have hrt' : t'.resTaken = 0 := by rw [hd2.2, hd1.2]; exact hrt
   refine ⟨hd2.1, hrt', ?_⟩
   intro hde hcp
-  have := ((run_inv (ops ++ [.hdetach id] ++ more)).t id t' hg').cnt
+  have := ((run_inv q (ops ++ [.hdetach id] ++ more)).t id t' hg').cnt
   simp [hcp, hde] at this
   omega
 
-/-- frame lemma: running one task (whether its future returns, wakes, or PANICS) changes no other
-task's state -/
+/-- frame lemma: running one task (whether its future returns, wakes itself locally or through another
+thread, or PANICS) changes no other task's state -/
 theorem runOne_frame (e : Exec) (id x : Nat) (hx : x ≠ id) : (runOne e id).1.get? x = e.get? x := by
   unfold runOne
   cases hg : e.get? id with
@@ -279,50 +479,99 @@ theorem runOne_frame (e : Exec) (id x : Nat) (hx : x ≠ id) : (runOne e id).1.g
   | some t =>
     simp only
     rcases hr : runTask t with ⟨t', k, w⟩
-    cases k <;> simp [removeTask, scheduleLocal_get?, get?_setTask_ne e t' hx] <;>
-      simp [Exec.get?, Exec.setTask, List.getElem?_set_ne (Ne.symm hx)]
+    cases k <;> simp only [removeTask]
+    · simp [Exec.get?, Exec.setTask, List.getElem?_set_ne (Ne.symm hx)]
+    · exact get?_setTask_ne e t' hx
+    · simp [Exec.get?, scheduleLocal_tasks, Exec.setTask, List.getElem?_set_ne (Ne.symm hx)]
+    · rw [remoteScheduleGuarded_get?_ne _ hx]; exact get?_setTask_ne e t' hx
+    · simp [Exec.get?, Exec.setTask, List.getElem?_set_ne (Ne.symm hx)]
 
-/-- ... and no other task's membership in the queues -/
-theorem runOne_queue_frame (e : Exec) (h : Inv e) (id x : Nat) (hx : x ≠ id) (hc : id ∈ e.cold) :
-    (x ∈ (runOne e id).1.hot ↔ x ∈ e.hot) ∧ (x ∈ (runOne e id).1.cold ↔ x ∈ e.cold) := by
-  unfold runOne
-  cases hg : e.get? id with
-  | none => exact ⟨Iff.rfl, Iff.rfl⟩
-  | some t =>
-    simp only
-    rcases hr : runTask t with ⟨t', k, w⟩
-    cases k <;> simp [removeTask, Exec.setTask, List.mem_erase_of_ne hx]
-    rcases scheduleLocal_cases ({ e with tasks := e.tasks.set id t' } : Exec) id with h1 | ⟨_, h1⟩ <;> rw [h1] <;>
-      simp [List.mem_erase_of_ne hx, hx]
+/-- ... and no other task's membership in the executor's queue -/
+theorem tickStep_queue_frame (e : Exec) (h : Inv e) (id : Nat) (rest : List Nat) (hh : e.hot = id :: rest)
+    (x : Nat) (hx : x ≠ id) : inMap (tickStep e id).1 x = inMap e x := by
+  obtain ⟨t, _, _, sf⟩ := tickStep_facts h hh
+  cases hi : inMap e x
+  · cases hi' : inMap (tickStep e id).1 x
+    · rfl
+    · rw [sf.sub x hi'] at hi; cases hi
+  · exact sf.keep x hx hi
 
 /-- a dropped executor stays dropped -/
-theorem dead_stays_dead (e : Exec) (hd : e.alive = false) (op : Op) : (apply e op).alive = false := by
-  rcases apply_cases e op with h0 | ⟨id', t1, t', _, _, _, h1 | h1⟩ | ⟨ha, _⟩
-  · rw [h0]; exact hd
-  · rw [h1]; exact hd
-  · rw [h1]; simp [Exec.setTask, scheduleLocal_alive, hd]
-  · rw [hd] at ha; cases ha
+theorem dead_stays_dead (e : Exec) (h : InvB e) (hd : e.alive = false) (op : Op) : (apply e op).alive = false := by
+  have hsl : ∀ id, (scheduleLocal e id).alive = false := fun id => by rw [(scheduleLocal_fields h.inv id).2.2.1]; exact hd
+  have hrs : ∀ (e' : Exec) id, e'.alive = false → (remoteSchedule e' id).alive = false :=
+    fun e' id h' => by rw [(remoteSchedule_fields e' id).2.2.2.1]; exact h'
+  cases op with
+  | hcancel id =>
+    rcases handle_dead_or_live e id with hd' | ⟨t, hg, hh⟩
+    · simp [apply, hcancel_dead hd', hd]
+    · simp [apply, hcancel_live h.inv hg hh, Exec.setTask, hsl]
+  | _ => ?_
+  all_goals unfold apply applyR
+  case spawn sc => simp [hd]
+  case tick n => simp [hd]
+  case xdrop => simp [hd]
+  case hpoll id w => simp only [handlePoll]; cases e.get? id <;> simp [hd]; split <;> simp [Exec.setTask, hd]
+  case hdrop id => simp only [handleDrop]; cases e.get? id <;> simp [hd]; split <;> simp [Exec.setTask, hd, hsl]
+  case hdetach id => simp only [handleDetach]; cases e.get? id <;> simp [hd]; split <;> simp [Exec.setTask, hd]
+  case wake id => simp only [wakeLocal]; cases e.get? id <;> simp [hd]; split <;> simp [hd, hsl]
+  case wdrop id => simp only [wakerDrop]; cases e.get? id <;> simp [hd]; split <;> simp [Exec.setTask, hd]
+  case rwdrop id => simp only [wakerDrop]; cases e.get? id <;> simp [hd]; split <;> simp [Exec.setTask, hd]
+  case rhpoll id w => simp only [remoteHandlePoll]; cases e.get? id <;> simp [hd]; split <;> simp [Exec.setTask, hd]
+  case rhdrop id =>
+    simp only
+    cases hasHandle e id <;> simp [hd]
+    split
+    · exact hd
+    · simp only [remoteHandleDrop]
+      cases (remoteSchedule (chargeBudget e) id).get? id <;> simp [Exec.setTask, hrs (chargeBudget e) id hd]
+  case rhcancel id =>
+    simp only
+    cases hasHandle e id <;> simp [hd]
+    split
+    · exact hd
+    · simp only [remoteHandleCancel]
+      cases (remoteSchedule (chargeBudget e) id).get? id <;> simp [Exec.setTask, hrs (chargeBudget e) id hd]
+  case rwake id =>
+    simp only
+    cases hasWakerClone e id <;> simp [hd]
+    split
+    · exact hd
+    · exact hrs (chargeBudget e) id hd
+  case rwakeb id n =>
+    simp only
+    cases hw : hasWakerClone e id <;> simp [hd]
+    -- all tasks of a dropped executor are cancelled: `Remote::schedule` returns early
+    obtain ⟨t, hg, _⟩ := (hasWakerClone_iff e id).mp hw
+    have ht := h.inv.t id t hg
+    have hin : inMap e id = false := by
+      rw [inMap_false_iff, (h.inv.dead hd).1, (h.inv.dead hd).2]; simp
+    rw [hin] at ht
+    rw [remoteWakeB_early n hg (Or.inr (Or.inr (Or.inl (ht.outq_nc rfl))))]
+    exact hrs e id hd
 
-/-- executor torn down while handles and wakers are still used elsewhere: whatever happens afterwards,
-every task whose handle and wakers are gone has been freed (exactly once, by `dealloc_exactly_once`),
-its future dropped exactly once -/
-theorem teardown_frees_everything (ops more : List Op) (id : Nat) (t : TaskSt)
-    (hg : (run (ops ++ [.xdrop] ++ more)).get? id = some t) (hh : t.handle = false) (hw : t.wakers = 0) :
+/-- executor torn down while handles and wakers are still used elsewhere (on any thread): whatever
+happens afterwards, every task whose handle and wakers are gone has been freed (exactly once, by
+`dealloc_exactly_once`), its future dropped exactly once -/
+theorem teardown_frees_everything (q : Nat) (ops more : List Op) (id : Nat) (t : TaskSt)
+    (hg : (run q (ops ++ [.xdrop] ++ more)).get? id = some t) (hh : t.handle = false) (hw : t.wakers = 0) :
     t.deallocs = 1 ∧ t.futDrops = 1 ∧ t.uaf = 0 := by
-  have hdead : (run (ops ++ [.xdrop] ++ more)).alive = false := by
-    have h1 : (run (ops ++ [.xdrop])).alive = false := by
+  have hdead : (run q (ops ++ [.xdrop] ++ more)).alive = false := by
+    have h1 : (run q (ops ++ [.xdrop])).alive = false := by
       rw [run_append]
       unfold apply applyR
-      cases ha : (run ops).alive <;> simp [ha, execDrop]
-    have : ∀ (l : List Op) (e : Exec), e.alive = false → (l.foldl apply e).alive = false := by
+      cases ha : (run q ops).alive <;> simp [ha, execDrop]
+    have : ∀ (l : List Op) (e : Exec), InvB e → e.alive = false → (l.foldl apply e).alive = false := by
       intro l
       induction l with
-      | nil => intro e he; exact he
-      | cons op l ih => intro e he; exact ih _ (dead_stays_dead e he op)
-    simpa [run, List.foldl_append] using this more _ h1
-  have hinv := run_inv (ops ++ [.xdrop] ++ more)
+      | nil => intro e _ he; exact he
+      | cons op l ih => intro e hb he; exact ih _ (apply_invB hb op) (dead_stays_dead e hb he op)
+    have he : run q (ops ++ [.xdrop] ++ more) = more.foldl apply (run q (ops ++ [.xdrop])) := by
+      simp [run, List.foldl_append]
+    rw [he]; exact this more _ (run_invB q (ops ++ [.xdrop])) h1
+  have hinv := run_inv q (ops ++ [.xdrop] ++ more)
   obtain ⟨d1, d2⟩ := hinv.dead hdead
-  have hin : inMap (run (ops ++ [.xdrop] ++ more)) id = false := by
+  have hin : inMap (run q (ops ++ [.xdrop] ++ more)) id = false := by
     rw [inMap_false_iff, d1, d2]; simp
   have ht := hinv.t id t hg
   rw [hin] at ht
@@ -332,23 +581,49 @@ theorem teardown_frees_everything (ops more : List Op) (id : Nat) (t : TaskSt)
 
 /-! ## 4. Tick order and no starvation -/
 
-/-- `tick` polls in hot-queue (FIFO) order: the poll log starts with the first `min n |hot|` hot tasks
-(`hot.take n`), provided none of them is cancelled (a cancelled one is dropped instead of polled) -/
-theorem tick_polls_in_hot_order (e : Exec) (h : Inv e) (n : Nat)
-    (hl : ∀ x, x ∈ e.hot.take n → liveIn e x) :
-    ∃ extra, (tick e n).2.1 = e.hot.take n ++ extra := tickLoop_order n e h hl
+/-- `tick` polls in hot-queue (FIFO) order: position `p < n` of the poll log is the task at position `p`
+of the hot queue, provided the hot tasks up to `p` are live (a cancelled one is dropped instead of polled) -/
+theorem tick_polls_in_hot_order (e : Exec) (h : Inv e) (n p x : Nat) (hp : p < n) (hx : e.hot[p]? = some x)
+    (hl : ∀ q y, q ≤ p → e.hot[q]? = some y → liveIn e y) : (tick e n).2.1[p]? = some x := by
+  have sf := tickStart_facts h
+  refine tickLoop_order n (tickStart e) sf.inv p x hp (tickStart_hot_get h hx) ?_
+  intro q y hq hy
+  have hpl : p < e.hot.length := (List.getElem?_eq_some_iff.mp hx).1
+  obtain ⟨w, hw, _⟩ := sf.hot
+  rw [hw, List.getElem?_append_left (by omega)] at hy
+  exact (liveIn_congr sf.get y).1.mpr (hl q y hq hy)
+
+/-- ... so the poll log starts with `hot.take n` when these tasks are live -/
+theorem tick_log_starts_with_hot (e : Exec) (h : Inv e) (n : Nat) (hl : ∀ x, x ∈ e.hot.take n → liveIn e x) :
+    (tick e n).2.1.take (e.hot.take n).length = e.hot.take n := by
+  apply List.ext_getElem?
+  intro i
+  by_cases hi : i < (e.hot.take n).length
+  · have hin : i < n := by simp at hi; omega
+    obtain ⟨x, hxe⟩ : ∃ x, (e.hot.take n)[i]? = some x := ⟨_, List.getElem?_eq_getElem hi⟩
+    have hx : e.hot[i]? = some x := by rw [← hxe]; simp [List.getElem?_take, hin]
+    have := tick_polls_in_hot_order e h n i x hin hx (by
+      intro q y hq hy
+      apply hl y
+      have : (e.hot.take n)[q]? = some y := by simp [List.getElem?_take, show q < n by omega, hy]
+      exact List.mem_of_getElem? this)
+    rw [List.getElem?_take, if_pos hi, this, hxe]
+  · rw [List.getElem?_eq_none (by simp at hi ⊢; omega), List.getElem?_eq_none (by omega)]
 
 /-- progress in ONE tick with `max_interval = n`: a hot task at position `p` is visited (polled if live,
 dropped and removed if cancelled) when `p < n`, and otherwise moves up to position `p - n` -/
 theorem tick_progress (e : Exec) (h : Inv e) (n p x : Nat) (hx : e.hot[p]? = some x) :
     (p < n → (liveIn e x → x ∈ (tick e n).2.1) ∧ (cancelledIn e x → inMap (tick e n).1 x = false)) ∧
-    (n ≤ p → (tick e n).1.hot[p - n]? = some x) :=
-  ⟨fun hp => ⟨(tickLoop_visit n e h p x hx hp).2, (tickLoop_visit n e h p x hx hp).1⟩,
-   fun hp => tickLoop_shift n e h p x hx hp⟩
+    (n ≤ p → (tick e n).1.hot[p - n]? = some x) := by
+  have sf := tickStart_facts h
+  have hx0 := tickStart_hot_get h hx
+  refine ⟨fun hp => ⟨fun hl => ?_, fun hc => ?_⟩, fun hp => tickLoop_shift n _ sf.inv p x hx0 hp⟩
+  · exact (tickLoop_visit n _ sf.inv p x hx0 hp).2 ((liveIn_congr sf.get x).1.mpr hl)
+  · exact (tickLoop_visit n _ sf.inv p x hx0 hp).1 ((liveIn_congr sf.get x).2.mpr hc)
 
 /-- no starvation: a runnable task at position `p` of the hot queue is polled within `k` ticks as soon as
 `k * n > p`, i.e. within ⌈(p+1)/n⌉ ticks, for every `max_interval = n > 0` and whatever the other
-tasks do (wake themselves, complete, panic, ...) -/
+tasks do (wake themselves, are woken from other threads, complete, panic, ...) -/
 theorem no_starvation (e : Exec) (h : Inv e) (n : Nat) (hn : 0 < n) (k p x : Nat)
     (hx : e.hot[p]? = some x) (hl : liveIn e x) (hp : p < k * n) : x ∈ (tickN e n k).2 :=
   tickN_polls_live h n hn k p x hx hl hp
@@ -360,13 +635,39 @@ theorem spawn_is_hot (e : Exec) (sc : List Outcome) :
   unfold liveIn
   simp [spawn, Exec.get?]
 
-/-- a wake-up through a task waker makes a parked (cold) task runnable again -/
+/-- a wake-up through a task waker on the home thread makes a parked (cold) task runnable again -/
 theorem wake_makes_hot (e : Exec) (h : Inv e) (id : Nat) (t : TaskSt) (hg : e.get? id = some t)
     (hw : t.wakers ≠ 0) (hq : inMap e id = true) : id ∈ (wakeLocal e id).1.hot := by
   rw [wakeLocal_live hg hw]
-  rcases (scheduleLocal_mem h.q id).mpr ((inMap_iff e id).mp hq) with hm | hm
+  rcases (scheduleLocal_mem h id id).mpr ((inMap_iff e id).mp hq) with hm | hm
   · exact hm
   · exact absurd hm (fun hc => scheduleLocal_not_cold h hg hc)
+
+/-- a wake-up through a task waker on ANOTHER thread is not lost: afterwards the task (still queued, live)
+has SCHEDULED set and is in the hot queue or in the sync queue ... -/
+theorem remote_wake_is_recorded (e : Exec) (h : InvB e) (id : Nat) (t : TaskSt) (hg : e.get? id = some t)
+    (hq : inMap e id = true) :
+    ∃ t', (remoteSchedule e id).get? id = some t' ∧ t'.word.scheduled = true ∧
+      t'.word.notCancelled = t.word.notCancelled ∧ inMap (remoteSchedule e id) id = true ∧
+      (id ∈ (remoteSchedule e id).hot ∨ id ∈ (remoteSchedule e id).sync) := by
+  have f := remoteSchedule_fields e id
+  have hq' : inMap (remoteSchedule e id) id = true := by
+    rw [← hq]; apply inMap_eq_of_iff; rw [f.1, f.2.1]
+  refine ⟨_, remoteSchedule_get?_self hg, rfl, rfl, hq', ?_⟩
+  rcases (inMap_iff _ _).mp hq' with h1 | h1
+  · exact Or.inl h1
+  · rcases remoteSchedule_reach h.inv hg h1 with h2 | h2
+    · exact Or.inr h2
+    · rw [remoteSchedule_inflight, h.idle] at h2; cases h2
+
+/-- ... and it is polled within `k` ticks as soon as `k * max_interval ≥ |hot| + |sync|` (no starvation for
+cross-thread wake-ups; false if `Task::run` cleared SCHEDULED only after the poll, or if `drain_sync`
+forgot a reservation) -/
+theorem remote_wake_polled_within (q : Nat) (ops : List Op) (n : Nat) (hn : 0 < n) (k id : Nat) (t : TaskSt)
+    (hg : (run q ops).get? id = some t) (hs : t.word.scheduled = true) (hl : t.word.notCancelled = true)
+    (hq : inMap (run q ops) id = true)
+    (hk : (run q ops).hot.length + (run q ops).sync.length ≤ k * n) : id ∈ (tickN (run q ops) n k).2 :=
+  tickN_polls_scheduled (run_invB q ops) n hn k hg hs hl hq hk
 
 /-! ## 5. Delivery of the completion wake-up to a handle polled on the home thread -/
 
@@ -384,19 +685,22 @@ theorem pending_poll_parks_waker (e : Exec) (h : Inv e) (id w : Nat) (t : TaskSt
     simp_all <;> split <;> simp_all
 
 /-- when the future of the task at the head of the hot queue returns Ready (or panics), the join waker
-parked in the slot is woken by that very loop body -/
+parked in the slot (by a poll on the home thread or, sequentially, on another thread) is woken by that
+very loop body -/
 theorem completion_wakes_parked_waker (e : Exec) (h : Inv e) (id w : Nat) (rest : List Nat) (t : TaskSt)
     (o : Outcome) (r : List Outcome)
     (hh : e.hot = id :: rest) (hg : e.get? id = some t) (hs : t.slot = some w)
     (hc : t.word.notCancelled = true) (hsc : t.script = o :: r) (ho : o = .ready ∨ o = .panic) :
     (tickStep e id).1.woken = e.woken ++ [w] := by
-  obtain ⟨t', hg', ht, heq⟩ := tickStep_head h hh
+  obtain ⟨t', hg', ht⟩ := h.get_of_mem (id := id) (Or.inl (by simp [hh]))
   rw [hg] at hg'; cases hg'
   have hr := runTask_ready t hc (ht.inq_c rfl) o r hsc ho
-  rw [heq, hr]
+  have hmc : makeCold e id = { e with hot := rest, cold := e.cold ++ [id] } := by simp [makeCold, hh]
+  have hgm : (makeCold e id).get? id = some t := by rw [hmc]; exact hg
   have hwk := ht.wk
   rw [hs] at hwk
-  simp [hwk, ht.nsw, hs]
+  simp only [tickStep, runOne, hgm, hr]
+  simp [hmc, hwk, ht.nsw, hs, removeTask, Exec.setTask]
 
 /-- `liveIn` / `cancelledIn` are decidable on concrete states -/
 theorem liveIn_iff (e : Exec) (x : Nat) :
@@ -412,54 +716,102 @@ theorem cancelledIn_iff (e : Exec) (x : Nat) :
 /-! ## 6. Non-vacuity: concrete programs (the same `run` the driver executes) -/
 
 /-- the prefetching iterator: a self-waking task goes to the hot tail and is polled again in the same tick -/
-example : (applyR (run [.spawn [.wakeSelf, .ready], .spawn [.pending]]) (.tick 61)).2
+example : (applyR (run 64 [.spawn [.wakeSelf, .ready], .spawn [.pending]]) (.tick 61)).2
     = .polled [0, 1, 0] false := by decide
 
 /-- ... but a lone self-waking task is polled once per tick (the iterator prefetched `None`) -/
-example : (applyR (run [.spawn [.wakeSelf, .ready]]) (.tick 61)).2 = .polled [0] true := by decide
+example : (applyR (run 64 [.spawn [.wakeSelf, .ready]]) (.tick 61)).2 = .polled [0] true := by decide
 
 /-- handle dropped before completion: never polled again, future dropped at the next tick, freed -/
-example : ((run [.spawn [.pending, .ready], .tick 61, .hdrop 0, .tick 61]).get? 0).map
+example : ((run 64 [.spawn [.pending, .ready], .tick 61, .hdrop 0, .tick 61]).get? 0).map
     (fun t => (t.polls, t.futDrops, t.deallocs, t.resTaken + t.resDrops)) = some (1, 1, 1, 0) := by decide
 
 /-- the hypotheses of `hdrop_cancels_and_schedules` / `cancelled_dropped_when_reached` are met there -/
-example : let e := run [.spawn [.pending, .ready], .tick 61, .hdrop 0]
+example : let e := run 64 [.spawn [.pending, .ready], .tick 61, .hdrop 0]
     e.hot[0]? = some 0 ∧ ((e.get? 0).map (fun t => t.word.notCancelled)) = some false := by decide
 
 /-- detached task: runs to completion, output dropped exactly once, allocation freed -/
-example : ((run [.spawn [.wakeSelf, .ready], .hdetach 0, .tick 61, .tick 61]).get? 0).map
+example : ((run 64 [.spawn [.wakeSelf, .ready], .hdetach 0, .tick 61, .tick 61]).get? 0).map
     (fun t => (t.polls, t.word.completed, t.resTaken, t.resDrops, t.deallocs)) = some (2, true, 0, 1, 1) := by decide
 
 /-- a panicking task: the payload reaches the handle exactly once; the other task is untouched -/
-example : let e := run [.spawn [.panic], .spawn [.pending], .tick 61]
+example : let e := run 64 [.spawn [.panic], .spawn [.pending], .tick 61]
     (applyR e (.hpoll 0 3)).2 = .join .panicked ∧
     ((apply e (.hpoll 0 3)).get? 0).map (fun t => (t.resTaken, t.resDrops, t.deallocs)) = some (1, 0, 1) ∧
     (e.get? 1).map (fun t => (t.polls, t.futDrops, t.word.completed)) = some (1, 0, false) := by decide
 
 /-- completion wakes the waker the handle was parked with; a second, different waker replaces the first -/
-example : (run [.spawn [.pending, .ready], .hpoll 0 7, .tick 61, .hpoll 0 8, .wake 0, .tick 61]).woken = [] ∧
-    (run [.spawn [.wakeSelf, .ready], .hpoll 0 7, .tick 61, .hpoll 0 8, .tick 61]).woken = [8] ∧
-    ((run [.spawn [.wakeSelf, .ready], .hpoll 0 7, .tick 61, .hpoll 0 8, .tick 61]).get? 0).map
+example : (run 64 [.spawn [.pending, .ready], .hpoll 0 7, .tick 61, .hpoll 0 8, .wake 0, .tick 61]).woken = [] ∧
+    (run 64 [.spawn [.wakeSelf, .ready], .hpoll 0 7, .tick 61, .hpoll 0 8, .tick 61]).woken = [8] ∧
+    ((run 64 [.spawn [.wakeSelf, .ready], .hpoll 0 7, .tick 61, .hpoll 0 8, .tick 61]).get? 0).map
       (fun t => (t.slotSets, t.slotDrops)) = some (2, 2) := by decide
 
 /-- executor dropped while a waker clone and the handle live on: freed only when both are gone -/
-example : let e := run [.spawn [.cloneWaker, .ready], .tick 61, .xdrop]
+example : let e := run 64 [.spawn [.cloneWaker, .ready], .tick 61, .xdrop]
     (e.get? 0).map (fun t => (t.futDrops, t.deallocs, t.word.count)) = some (1, 0, 2) ∧
     ((apply e (.hpoll 0 1)).get? 0).map (fun t => (t.deallocs, t.handle)) = some (0, false) ∧
-    ((run [.spawn [.cloneWaker, .ready], .tick 61, .xdrop, .wake 0, .hpoll 0 1, .wdrop 0]).get? 0).map
+    ((run 64 [.spawn [.cloneWaker, .ready], .tick 61, .xdrop, .wake 0, .hpoll 0 1, .wdrop 0]).get? 0).map
       (fun t => (t.deallocs, t.uaf, t.futDrops)) = some (1, 0, 1) := by decide
 
 /-- `no_starvation` with `max_interval = 1`: three self-waking tasks, the one at position 2 is polled in
 the third tick; and the theorem's hypotheses hold for it -/
-example : let e := run [.spawn [.wakeSelf, .wakeSelf, .wakeSelf], .spawn [.wakeSelf, .wakeSelf], .spawn [.ready]]
+example : let e := run 64 [.spawn [.wakeSelf, .wakeSelf, .wakeSelf], .spawn [.wakeSelf, .wakeSelf], .spawn [.ready]]
     e.hot[2]? = some 2 ∧ (tickN e 1 3).2 = [0, 1, 2] ∧ (tickN e 1 2).2 = [0, 1] := by decide
 
-example : 2 ∈ (tickN (run [.spawn [.wakeSelf, .wakeSelf, .wakeSelf], .spawn [.wakeSelf, .wakeSelf], .spawn [.ready]]) 1 3).2 :=
-  no_starvation _ (run_inv _) 1 (by decide) 3 2 2 (by decide) ((liveIn_iff _ _).mpr (by decide)) (by decide)
+example : 2 ∈ (tickN (run 64 [.spawn [.wakeSelf, .wakeSelf, .wakeSelf], .spawn [.wakeSelf, .wakeSelf], .spawn [.ready]]) 1 3).2 :=
+  no_starvation _ (run_inv _ _) 1 (by decide) 3 2 2 (by decide) ((liveIn_iff _ _).mpr (by decide)) (by decide)
 
 /-- `JoinHandle::cancel` on a completed task returns its output; on a running one, `None` -/
-example : (applyR (run [.spawn [.ready], .tick 61]) (.hcancel 0)).2 = .cancel .ok ∧
-    (applyR (run [.spawn [.pending], .tick 61]) (.hcancel 0)).2 = .cancel .cancelled := by decide
+example : (applyR (run 64 [.spawn [.ready], .tick 61]) (.hcancel 0)).2 = .cancel .ok ∧
+    (applyR (run 64 [.spawn [.pending], .tick 61]) (.hcancel 0)).2 = .cancel .cancelled := by decide
+
+/-! ### cross-thread operations (the scenarios the seeded defects C04-a, C04-b, C04-c need) -/
+
+/-- handle dropped on another thread while the task is parked: the id goes through the sync queue, the next
+tick reaps the task (future dropped once, never polled again). With `set_cancelled` BEFORE `schedule` in
+`Task::cancel` the id would never be pushed. -/
+example : let e := run 64 [.spawn [.pending], .tick 61, .rhdrop 0]
+    e.sync = [0] ∧ e.pending = 1 ∧ e.cold = [0] ∧
+    (e.get? 0).map (fun t => (t.word.notCancelled, t.word.scheduled, t.futDrops)) = some (false, true, 0) ∧
+    (applyR e (.tick 61)).2 = .polled [] false ∧
+    ((apply e (.tick 61)).get? 0).map (fun t => (t.polls, t.futDrops, t.deallocs)) = some (1, 1, 1) := by decide
+
+/-- `cancelled_reaped_within` applies to it: |hot| + |sync| = 1 ≤ 1 · 61 -/
+example : inMap (tickN (run 64 [.spawn [.pending], .tick 61, .rhdrop 0]) 61 1).1 0 = false :=
+  (cancelled_reaped_within 64 _ 61 (by decide) 1 0 ((cancelledIn_iff _ _).mpr (by decide)) (by decide)).1
+
+/-- a task woken from another thread, polled, and woken again from another thread DURING that poll
+(`W`): `Task::run` cleared SCHEDULED before the poll, so the second wake-up pushes the id again and the
+task is polled by the following tick -/
+example : (run 64 [.spawn [.cloneWaker, .remoteWake, .ready], .tick 61, .rwake 0]).sync = [0] ∧
+    (applyR (run 64 [.spawn [.cloneWaker, .remoteWake, .ready], .tick 61, .rwake 0]) (.tick 61)).2 = .polled [0] false ∧
+    (run 64 [.spawn [.cloneWaker, .remoteWake, .ready], .tick 61, .rwake 0, .tick 61]).sync = [0] ∧
+    (applyR (run 64 [.spawn [.cloneWaker, .remoteWake, .ready], .tick 61, .rwake 0, .tick 61]) (.tick 61)).2
+      = .polled [0] false ∧
+    ((run 64 [.spawn [.cloneWaker, .remoteWake, .ready], .tick 61, .rwake 0, .tick 61, .tick 61]).get? 0).map
+      (fun t => (t.polls, t.word.completed)) = some (3, true) := by decide
+
+/-- `sync_queue_size = 1`: a second remote waker finds the queue full, calls the driver waker, the executor
+ticks (drains task 0, `pending` 2 → 1: the reservation of the blocked pusher survives), the push succeeds,
+and the next tick polls task 1 -/
+example : let e := run 1 [.spawn [.cloneWaker, .pending, .ready], .spawn [.cloneWaker, .pending, .ready], .tick 61, .rwake 0]
+    (e.sync, e.pending) = ([0], 1) ∧
+    (applyR e (.rwakeb 1 61)).2 = .wokeB (some ([0], false)) ∧
+    ((apply e (.rwakeb 1 61)).sync, (apply e (.rwakeb 1 61)).pending) = ([1], 1) ∧
+    (applyR (apply e (.rwakeb 1 61)) (.tick 61)).2 = .polled [1] false ∧
+    (applyR e (.rwake 1)).2 = .full := by decide
+
+/-- coalescing: a second remote wake-up of an already SCHEDULED task pushes nothing -/
+example : (run 64 [.spawn [.cloneWaker, .pending], .tick 61, .rwake 0, .rwake 0]).sync = [0] ∧
+    (run 64 [.spawn [.cloneWaker, .pending], .tick 61, .rwake 0, .wake 0]).hot = [0] ∧
+    (run 64 [.spawn [.cloneWaker, .pending], .tick 61, .rwake 0, .wake 0]).sync = [] := by decide
+
+/-- the handle polled on another thread parks its waker; completion wakes it; the result is then taken remotely -/
+example : (run 64 [.spawn [.pending, .ready], .rhpoll 0 5, .tick 61, .tick 61]).woken = [] ∧
+    (run 64 [.spawn [.wakeSelf, .ready], .rhpoll 0 5, .tick 61, .tick 61]).woken = [5] ∧
+    (applyR (run 64 [.spawn [.wakeSelf, .ready], .rhpoll 0 5, .tick 61, .tick 61]) (.rhpoll 0 6)).2 = .join .ok ∧
+    (applyR (run 64 [.spawn [.ready], .tick 61]) (.rhcancel 0)).2 = .cancel .ok ∧
+    (applyR (run 64 [.spawn [.pending], .tick 61]) (.rhcancel 0)).2 = .cancel .cancelled := by decide
 
 /-! ## 7. The join handle on ANOTHER thread (Compio/Model/RemoteJoin.lean)
 
